@@ -657,3 +657,19 @@ BOOK_NOTE = (" Translator tie (harness/py2coq_book.py; the queue as heapq uses i
 for _p in ("C01", "C02", "C03"):
     CLAIMS[_p]["ties"] += (_book_tie,)
     CLAIMS[_p]["text"] += BOOK_NOTE
+
+
+def _walk_tie():
+    import translated
+    return translated.walk_tie()
+
+
+WALK_NOTE = (" Translator tie (harness/py2coq_walk.py; loop state in coq/theories/WalkPy.v): the statements of Market._execution before its `while True:` loop and the loop body "
+             "are REGENERATED from /repo's source on every run - the refills and their guards, the exits, the assertions, the decrements, what is appended where, in source "
+             "order; the three decision kernels stand as the model's crossing / min / choose_price, to which the twelfth translator ties them - and "
+             "coq/translated/WalkC01Proofs.v is re-checked against the generated text: on queues of orders with positive volume the loop never raises, and whenever it stops "
+             "within n iterations the price and the pending fills it leaves are exactly Match.walk's with fuel n on the two sorted books; the popped orders followed by the "
+             "rest are the books it started from (so the put-back loses nothing).")
+for _p in ("C01", "C03"):
+    CLAIMS[_p]["ties"] += (_walk_tie,)
+    CLAIMS[_p]["text"] += WALK_NOTE
